@@ -7,8 +7,8 @@ CONSTANTS
   Callers = {"c1"}
   TimerSlots <- TwoSlots
   TTL = 2
-  MaxTime = 4
-  MaxOps = 6
+  MaxTime = 3
+  MaxOps = 4
   OpNames <- OpsAll
   CleanupThreshold = 2
   Atomic = TRUE
